@@ -1,9 +1,9 @@
 SPECIFICATION Spec
 CONSTANTS
-  AttrNames = {"a", "b", "c", "at", "it"}
+  AttrNames = {"a", "b", "c", "d"}
   MaxAttrs = 2
-  MaxRows = 2
-  Depth = 2
-  Fork = FALSE
+  MaxRows = 1
+  Depth = 0
+  Fork = TRUE
 INVARIANTS TypeOK
 CHECK_DEADLOCK FALSE
